@@ -1,6 +1,6 @@
 SPECIFICATION Spec
 CONSTANTS
-  Keys = {"k1", "k2"}
+  Keys = {"k1"}
   Ids = {1, 2}
   Results = {"r0", "r1"}
   Mems = {"m1", "m2"}
